@@ -540,7 +540,7 @@ class FuncInfo:
                 out.append(s)
         return out
 
-    def temp_value(self, name_node, strict=True):
+    def temp_value(self, name_node, strict=True, stop=()):
         """If the Name use denotes a temporary - exactly one reaching
         definition `name = <pure expression>`, the object is never mutated in
         place, and no operand of the expression is rebound or mutated between
@@ -561,7 +561,7 @@ class FuncInfo:
         if v is None or isinstance(v, ast.GeneratorExp) or not is_pure(v):
             return None
         if self._mutated_in_place(name_node.id):
-            return None
+            return self._grown_list(name_node, site, v, stop)
         use = self.stmt(name_node)
         in_iter = isinstance(use, (ast.For, ast.AsyncFor)) and any(n is name_node for n in ast.walk(use.iter))
         for m in walk_expr(v):
@@ -580,6 +580,81 @@ class FuncInfo:
                 if self.cfg.reachable(site, ms) and self.cfg.reachable(ms, use, avoiding=[site]):
                     return None
         return v
+
+    def _grown_list(self, name_node, site, v, stop=()):
+        """`L = []` followed by ONE loop `for T in IT: [if c:] L.append(E)` that is the only mutation of
+        L denotes, at a use the loop dominates, the comprehension `[E for T in IT [if c]]` (the same
+        side conditions as for any temporary: pure parts, operands unchanged between loop and use)."""
+        from .normal import is_pure
+        name = name_node.id
+        if not ((isinstance(v, ast.List) and not v.elts) or (isinstance(v, ast.Call) and isinstance(v.func, ast.Name)
+                                                            and v.func.id == 'list' and not v.args and not v.keywords)):
+            return None
+        muts = list(self._mutated_in_place(name))
+        if len(muts) != 1:
+            return None
+        st = muts[0]
+        if not (isinstance(st, ast.Expr) and isinstance(st.value, ast.Call) and isinstance(st.value.func, ast.Attribute)
+                and st.value.func.attr == 'append' and isinstance(st.value.func.value, ast.Name)
+                and st.value.func.value.id == name and len(st.value.args) == 1 and not st.value.keywords
+                and not isinstance(st.value.args[0], ast.Starred)):
+            return None
+        par = self.mod.parent
+        cond = None
+        holder = par.get(st)
+        if isinstance(holder, ast.If) and not holder.orelse and holder.body and holder.body[-1] is st:
+            cond = holder.test
+            inner = holder
+            holder = par.get(holder)
+        else:
+            inner = st
+        loop = holder
+        if not (isinstance(loop, ast.For) and not loop.orelse and loop.body and loop.body[-1] is inner):
+            return None
+        if par.get(loop) is not par.get(site):
+            return None
+        for n in ast.walk(loop):
+            if isinstance(n, (ast.Break, ast.Continue, ast.Return, ast.Yield, ast.YieldFrom)):
+                return None
+        # the statements before the append may only define pure temporaries
+        pre = loop.body[:-1] + (inner.body[:-1] if inner is not st else [])
+        for q in pre:
+            if not (isinstance(q, ast.Assign) and len(q.targets) == 1 and isinstance(q.targets[0], ast.Name) and is_pure(q.value)):
+                return None
+        use = self.stmt(name_node)
+        if use is None or self._within(use, loop) or use is loop or not self.cfg.dominates(loop, use):
+            return None
+        tn = set(target_names(loop.target))
+        elt = self.expand(st.value.args[0], stop=tuple(tn) + tuple(stop))
+        test = self.expand(cond, stop=tuple(tn) + tuple(stop)) if cond is not None else None
+        it = loop.iter
+        local = {q.targets[0].id for q in pre}
+        for part in [elt, it] + ([test] if test is not None else []):
+            if not is_pure(part):
+                return None
+            for m in walk_expr(part):
+                if isinstance(m, ast.Name):
+                    if m.id == name or m.id in local:
+                        return None
+                    if m.id in tn:
+                        if part is it:
+                            return None
+                        continue
+                    if self.rd.defs_at(loop, m.id) != self.rd.defs_at(use, m.id):
+                        return None
+                    for ms in self._mutated_in_place(m.id):
+                        if self.cfg.reachable(loop, ms) and self.cfg.reachable(ms, use):
+                            return None
+        for t in tn:
+            # the loop variable must not be read after the loop (a comprehension keeps it private)
+            for n in ast.walk(self.fn):
+                if isinstance(n, ast.Name) and n.id == t and isinstance(n.ctx, ast.Load) and not self._within(n, loop):
+                    return None
+        # the ORIGINAL element / filter nodes are returned: whoever expands further (fi.expand or a rule's
+        # own walker with its own set of names to keep) decides what is expanded inside
+        comp = ast.ListComp(elt=st.value.args[0], generators=[ast.comprehension(
+            target=loop.target, iter=it, ifs=[cond] if cond is not None else [], is_async=0)])
+        return ast.copy_location(comp, st)
 
     def _within(self, node, outer):
         p = self.mod.parent.get(node)
@@ -602,7 +677,7 @@ class FuncInfo:
         def ex(e, d):
             if isinstance(e, ast.Name):
                 if d > 0 and e.id not in stop and isinstance(e.ctx, ast.Load):
-                    v = self.temp_value(e, strict)
+                    v = self.temp_value(e, strict, stop)
                     if v is not None:
                         return ex(v, d - 1)
                 return ast.copy_location(ast.Name(id=e.id, ctx=e.ctx), e)
